@@ -325,6 +325,30 @@ pub fn c12(g: &mut G) {
             }
         }
         g.emit(format!("stats 0 {} {}", ["default", "3x3", "7x2"][i % 3], show_calls(&calls)));
+        g.emit(format!("!minimal {} {}", if i % 2 == 0 { "map" } else { "set" }, show_calls(&calls)));
+    }
+    // systematic: every two-letter key over {a,b,c} (all second-level nodes are equivalent), with a
+    // rejected call after the k-th accepted key — whatever an error does to the builder's cache, the
+    // nodes emitted afterwards must still be shared with the ones emitted before
+    {
+        let u: Vec<Vec<u8>> = universe(b"abc", 2).into_iter().filter(|k| k.len() == 2).collect();
+        for at in 1..u.len() {
+            for (vi, as_map) in [false, true].iter().enumerate() {
+                let mut calls: Vec<Call> = vec![];
+                for (j, k) in u.iter().enumerate() {
+                    calls.push(if *as_map { Call::Ins(k.clone(), 0) } else { Call::Add(k.clone()) });
+                    if j + 1 == at {
+                        // out of order (and, for maps, also a duplicate)
+                        calls.push(if *as_map { Call::Ins(u[0].clone(), 0) } else { Call::Add(u[0].clone()) });
+                        if *as_map {
+                            calls.push(Call::Ins(k.clone(), 0));
+                        }
+                    }
+                }
+                g.emit(format!("stats 0 {} {}", ["default", "7x2"][(at + vi) % 2], show_calls(&calls)));
+                g.emit(format!("!minimal {} {}", if *as_map { "map" } else { "set" }, show_calls(&calls)));
+            }
+        }
     }
     for f in ["words-10000", "words-100000", "wiki-urls-10000", "wiki-urls-100000"] {
         if f.contains("100000") && !g.thorough {
